@@ -50,26 +50,33 @@ Proof.
   apply in_map. apply in_seq. lia.
 Qed.
 
-Definition byte_mask_sweep : bool :=
-  forallb (fun j =>
-    forallb (fun b =>
-      forallb (fun x =>
-        Bool.eqb (Z.land b (256 - 2 ^ j) =? Z.land x (256 - 2 ^ j)) (b / 2 ^ j =? x / 2 ^ j))
-      all_bytes) all_bytes) [0; 1; 2; 3; 4; 5; 6; 7; 8].
+Definition byte_ok (j b x : Z) : bool :=
+  Bool.eqb (Z.land b (256 - 2 ^ j) =? Z.land x (256 - 2 ^ j)) (b / 2 ^ j =? x / 2 ^ j).
+
+Definition sweep (js bs : list Z) : bool :=
+  forallb (fun j => forallb (fun b => forallb (fun x => byte_ok j b x) bs) bs) js.
+
+Lemma sweep_sound js bs :
+  sweep js bs = true -> forall j b x, In j js -> In b bs -> In x bs -> byte_ok j b x = true.
+Proof.
+  unfold sweep. intros H j b x Hj Hb Hx.
+  rewrite forallb_forall in H. specialize (H j Hj).
+  rewrite forallb_forall in H. specialize (H b Hb).
+  rewrite forallb_forall in H. exact (H x Hx).
+Qed.
 
 (* 9 x 256 x 256 cases, checked by the kernel's VM *)
-Lemma byte_mask_sweep_ok : byte_mask_sweep = true.
+Lemma byte_mask_sweep_ok : sweep [0; 1; 2; 3; 4; 5; 6; 7; 8] all_bytes = true.
 Proof. vm_compute. reflexivity. Qed.
 
 Lemma byte_mask_spec j b x :
   0 <= j <= 8 -> 0 <= b < 256 -> 0 <= x < 256 ->
   (Z.land b (256 - 2 ^ j) =? Z.land x (256 - 2 ^ j)) = (b / 2 ^ j =? x / 2 ^ j).
 Proof.
-  intros Hj Hb Hx. pose proof byte_mask_sweep_ok as H. unfold byte_mask_sweep in H.
-  rewrite forallb_forall in H.
+  intros Hj Hb Hx.
   assert (Hin : In j [0; 1; 2; 3; 4; 5; 6; 7; 8]) by (cbn; lia).
-  specialize (H j Hin). rewrite forallb_forall in H. specialize (H b (in_all_bytes b Hb)).
-  rewrite forallb_forall in H. specialize (H x (in_all_bytes x Hx)). apply Bool.eqb_prop in H. exact H.
+  pose proof (sweep_sound _ _ byte_mask_sweep_ok j b x Hin (in_all_bytes b Hb) (in_all_bytes x Hx)) as H.
+  unfold byte_ok in H. apply Bool.eqb_prop in H. exact H.
 Qed.
 
 (* ------------------------------------------------------------------ the comparison loop *)
@@ -99,30 +106,29 @@ Proof.
     injection Lb as Lb. injection Lx as Lx.
     pose proof (Forall_inv Hb) as Hb0. pose proof (Forall_inv_tail Hb) as Hbs.
     pose proof (Forall_inv Hx) as Hx0. pose proof (Forall_inv_tail Hx) as Hxs. cbn beta in Hb0, Hx0.
-    subst n.
     pose proof (be_range bs Hbs) as RB. pose proof (be_range xs Hxs) as RX. rewrite Lb in RB. rewrite Lx in RX.
     cbn [cidr_mask be]. rewrite Lb, Lx.
-    set (W := 2 ^ (8 * Z.of_nat (List.length xs))) in *.
+    set (W := 2 ^ (8 * Z.of_nat n)) in *.
     assert (HW : 0 < W) by (apply Z.pow_pos_nonneg; lia).
     destruct (8 <=? p) eqn:E8.
     + apply Z.leb_le in E8. cbn [masked_eqb].
       replace (Z.land b 255) with b by (symmetry; change 255 with (Z.ones 8); rewrite Z.land_ones by lia; apply Z.mod_small; lia).
       replace (Z.land x 255) with x by (symmetry; change 255 with (Z.ones 8); rewrite Z.land_ones by lia; apply Z.mod_small; lia).
       rewrite andb_true_iff, Z.eqb_eq.
-      rewrite <- Lx in IH at 1. rewrite (IH bs xs (p - 8)) by (try assumption; try lia; congruence).
-      replace (8 * Z.of_nat (S (List.length xs)) - p) with (8 * Z.of_nat (List.length xs) - (p - 8)) by lia.
-      set (e := 8 * Z.of_nat (List.length xs) - (p - 8)).
-      assert (He : 0 <= e <= 8 * Z.of_nat (List.length xs)) by (unfold e; lia).
-      assert (HWe : W = 2 ^ e * 2 ^ (8 * Z.of_nat (List.length xs) - e))
+      rewrite (IH bs xs (p - 8) Lb Lx Hbs Hxs) by lia.
+      replace (8 * Z.of_nat (S n) - p) with (8 * Z.of_nat n - (p - 8)) by lia.
+      set (e := 8 * Z.of_nat n - (p - 8)).
+      assert (He : 0 <= e <= 8 * Z.of_nat n) by (unfold e; lia).
+      assert (HWe : W = 2 ^ e * 2 ^ (8 * Z.of_nat n - e))
         by (unfold W; rewrite <- Z.pow_add_r by lia; f_equal; lia).
       rewrite HWe in *. symmetry. apply div_weighted; try lia. apply Z.pow_pos_nonneg; lia.
     + apply Z.leb_gt in E8. cbn [masked_eqb].
       rewrite andb_true_iff, Z.eqb_eq.
-      assert (Hrest : masked_eqb bs (cidr_mask 0 (List.length xs)) xs = true).
-      { apply (IH bs xs 0); try assumption; try lia. rewrite Z.sub_0_r. fold W. rewrite !Z.div_small by lia. reflexivity. }
+      assert (Hrest : masked_eqb bs (cidr_mask 0 n) xs = true).
+      { apply (IH bs xs 0 Lb Lx Hbs Hxs); [lia|]. rewrite Z.sub_0_r. fold W. rewrite !Z.div_small by lia. reflexivity. }
       rewrite Hrest.
       pose proof (byte_mask_spec (8 - p) b x ltac:(lia) Hb0 Hx0) as Hbyte.
-      replace (8 * Z.of_nat (S (List.length xs)) - p) with (8 * Z.of_nat (List.length xs) + (8 - p)) by lia.
+      replace (8 * Z.of_nat (S n) - p) with (8 * Z.of_nat n + (8 - p)) by lia.
       rewrite Z.pow_add_r by lia. fold W.
       assert (Hj : 0 < 2 ^ (8 - p)) by (apply Z.pow_pos_nonneg; lia).
       rewrite <- !Z.div_div by lia.
